@@ -118,6 +118,8 @@ def make_ecl_corpus(d, tier):
 
 def signature(stderr):
     """(kind, first frames inside /repo) from a sanitizer / libFuzzer report"""
+    if stderr.startswith("HANG:") or "TIMEOUT >400s" in stderr:
+        return "hang|"
     ma = re.search(r"([\w.]+):\d+: ([^\n]*?): Assertion `([^\n]*?)' failed", stderr)
     if ma:
         # a failed assert() looks different under libFuzzer (ASan ABRT report) and under the probe (plain abort):
@@ -353,6 +355,22 @@ class C20(Check):
             for u in sorted(os.listdir(cdir))[:2]:
                 b = open(os.path.join(cdir, u), "rb").read()[:400]
                 samples.append({"target": label, "input_prefix": b.decode("latin-1")})
+            # timeout artifacts: a genuine hang burns CPU without ending; load noise does not.  Re-run up to 4 of them
+            # with a CPU-time limit (RLIMIT_CPU 110 s): killed by the limit = hang
+            import resource
+            for a in [x for x in arts if x.startswith("timeout-")][:4]:
+                def lim():
+                    resource.setrlimit(resource.RLIMIT_CPU, (110, 120))
+                try:
+                    r = subprocess.run([bins[binname], adir + a], env=san_env(dict(env, FZ_TMP=work)), stdout=subprocess.PIPE,
+                                       stderr=subprocess.STDOUT, timeout=1500, preexec_fn=lim)
+                    killed = r.returncode in (-24, -9) or r.returncode == 128 + 24       # SIGXCPU / SIGKILL from the limit
+                except subprocess.TimeoutExpired:
+                    killed = False          # wall clock ran out before 110 CPU seconds: the machine is overloaded, undecided
+                if killed:
+                    viols.append(((label, binname, env, ckind), adir + a, 3, "hang|", "did not finish within 110 CPU seconds"))
+                    break
+                labels["timeout-artifacts-finite"] = labels.get("timeout-artifacts-finite", 0) + 1
             # triage crash artifacts, dedup by signature
             sigs = {}
             for a in crashes[:60]:
